@@ -296,7 +296,11 @@ func ruleCACHEORDER(c *Ctx) []Obligation {
 
 // gepWrappers: functions that call gep.ResultType.
 func (c *Ctx) gepWrappers() map[*types.Func]*ast.FuncDecl {
+	if v, ok := c.memo["gepWrappers"]; ok {
+		return v.(map[*types.Func]*ast.FuncDecl)
+	}
 	out := map[*types.Func]*ast.FuncDecl{}
+	c.memo["gepWrappers"] = out
 	rt := c.lookupFunc(pkgGEP, "ResultType")
 	for _, p := range c.llvmPkgs() {
 		c.eachFunc(p.PkgPath, func(p *packages.Package, fd *ast.FuncDecl, fn *types.Func) {
@@ -352,6 +356,11 @@ func ruleGEPWALK(c *Ctx) []Obligation {
 						case *ast.CallExpr:
 							if f := calleeOf(info, n); f != nil {
 								if _, ok := wr[f]; ok {
+									found = true
+								}
+								// the walk called directly: this function is then a wrapper itself
+								// and is held to the wrapper obligations above
+								if f == c.lookupFunc(pkgGEP, "ResultType") {
 									found = true
 								}
 							}
@@ -480,7 +489,7 @@ type indexClassifier struct {
 	deflt string
 }
 
-func classifyIndexCase(body []ast.Stmt) string {
+func (c *Ctx) classifyIndexCase(info *types.Info, body []ast.Stmt, depth int) string {
 	hasLoop := false
 	for _, st := range body {
 		ast.Inspect(st, func(n ast.Node) bool {
@@ -506,6 +515,21 @@ func classifyIndexCase(body []ast.Stmt) string {
 				return true
 			}
 			s := strings.ReplaceAll(exprString(r.Results[0]), " ", "")
+			// the case delegates to a helper of the module (getVectorIndex(index.Elems)): the
+			// helper's own class
+			if call, ok := unparen(r.Results[0]).(*ast.CallExpr); ok && depth < 2 {
+				if callee := calleeOf(info, call); callee != nil && callee.Pkg() != nil && c.isLLVM(callee.Pkg().Path()) && callee.Pkg().Path() != pkgGEP {
+					if hfd := c.funcDecl(callee); hfd != nil && hfd.Body != nil {
+						hc := c.classifyIndexCase(c.declPkg[hfd].TypesInfo, hfd.Body.List, depth+1)
+						if class == "" || class == hc {
+							class = hc
+						} else {
+							class = "mixed"
+						}
+						return true
+					}
+				}
+			}
 			if cl, ok := unparen(r.Results[0]).(*ast.CompositeLit); ok {
 				s = "Index{"
 				for _, el := range cl.Elts {
@@ -561,7 +585,7 @@ func ruleGEPSIB(c *Ctx) []Obligation {
 				}
 				for _, cc := range sw.Body.List {
 					cl := cc.(*ast.CaseClause)
-					class := classifyIndexCase(cl.Body)
+					class := c.classifyIndexCase(p.TypesInfo, cl.Body, 0)
 					if cl.List == nil {
 						ic.deflt = class
 						continue
@@ -596,7 +620,9 @@ func ruleGEPSIB(c *Ctx) []Obligation {
 	})
 	// constants translated inline in irConstant: `case *ast.K: return constant.NewT(t), nil`
 	for _, ts := range c.typeSwitches(pkgASM) {
-		if ts.fn.Name() != "irConstant" {
+		// the constant dispatcher, whatever its name and however many levels it has: a type
+		// switch over ast.Constant
+		if in := namedOf(ts.operand); in == nil || typeKey(in) != "ast.Constant" {
 			continue
 		}
 		for _, cc := range ts.sw.Body.List {
